@@ -438,7 +438,8 @@ func appendClauseScanFn(w *World) (scan *ssa.Function, via *ssa.Call) {
 		}
 		passes := false
 		for _, a := range c.Call.Args {
-			if a == ssa.Value(clause) {
+			// the constraint itself, or what a normalising step made of it
+			if a == ssa.Value(clause) || typeShort(a.Type()) == "*solver.Clause" {
 				passes = true
 			}
 		}
@@ -510,6 +511,54 @@ func ruleR9_2(w *World, r *Report) {
 		}
 	}
 	if found == 0 {
+		// the variables may all be announced before the scan, by a function that walks the whole constraint
+		app := w.Func("solver", "Solver.AppendClause")
+		if app != nil && len(app.Params) >= 2 {
+			lenFn := w.Func("solver", "Clause.Len")
+			for _, ci := range callsIn(app) {
+				c, ok := ci.(*ssa.Call)
+				if !ok {
+					continue
+				}
+				passes := false
+				for _, a := range c.Call.Args {
+					if a == ssa.Value(app.Params[1]) {
+						passes = true
+					}
+				}
+				if !passes {
+					continue
+				}
+				for _, callee := range w.Callees[c] {
+					if len(callee.Blocks) == 0 || len(callee.Params) < 2 {
+						continue
+					}
+					for _, cj := range callsIn(callee) {
+						gc, isC := cj.(*ssa.Call)
+						if !isC || len(w.Callees[gc]) != 1 || !isGrower(w.Callees[gc][0]) {
+							continue
+						}
+						for _, a := range gc.Call.Args {
+							vc, isV := a.(*ssa.Call)
+							if !isV || typeShort(vc.Type()) != "solver.Var" || len(vc.Call.Args) != 1 {
+								continue
+							}
+							recv, idx, isE := clauseElem(w, vc.Call.Args[0])
+							if !isE {
+								continue
+							}
+							if fullRangeIndex(idx, func(b ssa.Value) bool {
+								lc, isL := b.(*ssa.Call)
+								return isL && lenFn != nil && w.staticCalleeIs(lc, lenFn) && len(lc.Call.Args) == 1 && lc.Call.Args[0] == recv
+							}) {
+								r.OK("R9.2", "(*solver.Solver).AppendClause announces before use", w.InstrPos(c), "every variable of the constraint is announced by "+w.FuncName(callee)+" before the scan")
+								return
+							}
+						}
+					}
+				}
+			}
+		}
 		r.Bad("R9.2", "(*solver.Solver).AppendClause announces before use", w.Pos(fn.Pos()), "AppendClause never announces the variables of the new constraint to the solver")
 	}
 }
